@@ -1,8 +1,179 @@
-/- driver component stub: replaced by the real component when its model exists -/
+/- driver component `solver`: the exact bisection models and the C10 contract predicate,
+   evaluated on implementation data given as exact numbers.
+
+   Numbers: `n/d` (a rational), 8 hex digits (IEEE binary32 bit pattern), 16 hex digits
+   (binary64 bit pattern).  Vectors are separated by a `|` token.
+
+   ops (`<in>` = `<lambda> <pi…> | <q…>`):
+     contract <kind> <in> | <w…>      kind = native | python | strict
+                                        → `ok <alpha-lo> <alpha-hi>` | `fail:<clause>` (`fail:domain` = input outside the property)
+     tol <kind> <in> | <w…>           → the tolerance used by `contract`, as a rational
+     model-cpp <in>                   → `ok <alpha> <rounds> <exit>` | `noconverge` | `empty`
+     model-py <in>                    → same
+     weights <alpha> <in>             → the vector λπ_i/(α − q_i) as rationals
+     corr <kind> <in> | <w…>          kind = native | python;  `<w…>` may be the single token `raised`
+                                        → `ok <round>` | `ok32 <round>` (native only: matched at float32
+                                          resolution, not at double) | `skip <round>` | `diverge:<why>`
+     agree <in> | <w1…> | <w2…>       both outputs finite: `ok <maxdiff>` if max_i |w1_i − w2_i| ≤ 1/100,
+                                        `skip` if the stated tolerances of the two contracts add up to more
+                                        than 1/100 − (nothing to compare: badly conditioned), else `fail <maxdiff>`
+     ulp32 <x>                        → spacing of binary32 at x
+-/
 import TakVerif.Driver.Ser
+import TakVerif.Model.Solver
 
 namespace Tak.Driver.Solver
+open Tak.Solver
 
-def handle : List String → Option String := fun _ => none
+def hexVal (c : Char) : Option Nat :=
+  if '0' ≤ c ∧ c ≤ '9' then some (c.toNat - '0'.toNat)
+  else if 'a' ≤ c ∧ c ≤ 'f' then some (c.toNat - 'a'.toNat + 10)
+  else if 'A' ≤ c ∧ c ≤ 'F' then some (c.toNat - 'A'.toNat + 10)
+  else none
+
+def parseHex (s : String) : Option Nat :=
+  s.toList.foldlM (fun acc c => do let v ← hexVal c; pure (acc * 16 + v)) 0
+
+/-- `some none` = a non-finite float -/
+def parseNum (s : String) : Option (Option Rat) :=
+  match s.splitOn "/" with
+  | [n, d] => do
+    let n ← n.toInt?
+    let d ← d.toNat?
+    if d = 0 then none else pure (some (mkRat n d))
+  | [h] =>
+    if h.length = 8 then (parseHex h).map ofBits32
+    else if h.length = 16 then (parseHex h).map ofBits64
+    else none
+  | _ => none
+
+def parseFinite (s : String) : Option Rat := (parseNum s).join
+
+def showRat (r : Rat) : String := s!"{r.num}/{r.den}"
+
+/-- split a token list at the `|` tokens -/
+def splitBar : List String → List (List String)
+  | [] => [[]]
+  | t :: ts =>
+    match splitBar ts with
+    | [] => [[t]]
+    | g :: gs => if t = "|" then [] :: g :: gs else (t :: g) :: gs
+
+def parseKind : String → Option SolverKind
+  | "native" => some .native
+  | "python" => some .python
+  | "strict" => some .strict
+  | _ => none
+
+def showExit : Exit → String
+  | .sigma => "sigma" | .same => "same" | .width => "width"
+
+def showOut : Except SolveErr (Out Rat) → String
+  | .ok o => s!"ok {showRat o.alpha} {o.rounds} {showExit o.exit}"
+  | .error .noConverge => "noconverge"
+  | .error .empty => "empty"
+
+/-- `<lambda> <pi…>` and `<q…>` -/
+def parseIn (first q : List String) : Option (Rat × List Rat × List Rat) :=
+  match first with
+  | [] => none
+  | l :: pis => do
+    let lam ← parseFinite l
+    let pi ← pis.mapM parseFinite
+    let q ← q.mapM parseFinite
+    pure (lam, pi, q)
+
+def maxAbsDiff (a b : List Rat) : Rat :=
+  (List.zipWith (fun x y => absv (x - y)) a b).foldl max 0
+
+def handle : List String → Option String
+  | "contract" :: k :: rest => do
+    let k ← parseKind k
+    match splitBar rest with
+    | [a, b, c] =>
+      let (lam, pi, q) ← parseIn a b
+      let w ← c.mapM parseNum
+      match check k pi q lam w with
+      | .ok (l, h) => pure s!"ok {showRat l} {showRat h}"
+      | .error cl => pure s!"fail:{cl.name}"
+    | _ => none
+  | "tol" :: k :: rest => do
+    let k ← parseKind k
+    match splitBar rest with
+    | [a, b, c] =>
+      let (lam, pi, q) ← parseIn a b
+      let w ← c.mapM parseNum
+      pure (showRat (tolFor k pi q lam w))
+    | _ => none
+  | "model-cpp" :: rest =>
+    match splitBar rest with
+    | [a, b] => do
+      let (lam, pi, q) ← parseIn a b
+      if pi.length ≠ q.length then none else pure (showOut (solveCppRat lam (pi.zip q)))
+    | _ => none
+  | "model-py" :: rest =>
+    match splitBar rest with
+    | [a, b] => do
+      let (lam, pi, q) ← parseIn a b
+      if pi.length ≠ q.length then none else pure (showOut (solvePyRat lam (pi.zip q)))
+    | _ => none
+  | "weights" :: al :: rest =>
+    match splitBar rest with
+    | [a, b] => do
+      let al ← parseFinite al
+      let (lam, pi, q) ← parseIn a b
+      if pi.length ≠ q.length then none
+      else pure (" ".intercalate ((weights lam (pi.zip q) al).map showRat))
+    | _ => none
+  | "corr" :: k :: rest => do
+    let k ← parseKind k
+    let py ← (match k with | .native => some false | .python => some true | .strict => none)
+    match splitBar rest with
+    | [a, b, c] =>
+      let (lam, pi, q) ← parseIn a b
+      if pi.length ≠ q.length then none
+      else
+        let obs : Option (Option (Rat × Rat)) :=
+          if c = ["raised"] then some none
+          else match c.mapM parseNum with
+            | none => none
+            | some w => (recoverAlpha pi q lam w).map some
+        match obs with
+        | none => pure "diverge:output-not-of-the-form"
+        | some o =>
+          let fine : Option Nat :=
+            if py then none
+            else match corr false (1 / 16777216) lam (pi.zip q) o with
+              | .ok r => some r
+              | _ => none
+          match fine with
+          | some r => pure s!"ok {r + 1}"
+          | none =>
+            match corr py 4 lam (pi.zip q) o with
+            | .ok r => pure (if py then s!"ok {r + 1}" else s!"ok32 {r + 1}")
+            | .skip r => pure s!"skip {r + 1}"
+            | .diverge why => pure s!"diverge:{why}"
+    | _ => none
+  | "agree" :: rest =>
+    match splitBar rest with
+    | [a, b, c, d] => do
+      let (lam, pi, q) ← parseIn a b
+      let w1 ← c.mapM parseNum
+      let w2 ← d.mapM parseNum
+      match allFinite w1, allFinite w2 with
+      | some f1, some f2 =>
+        if f1.length ≠ f2.length then none
+        else
+          let t := tolFor .native pi q lam w1 + tolFor .python pi q lam w2
+          let dmax := maxAbsDiff f1 f2
+          if dmax ≤ 1 / 100 then pure s!"ok {showRat dmax}"
+          else if 1 / 100 < t then pure "skip"
+          else pure s!"fail {showRat dmax}"
+      | _, _ => pure "nonfinite"
+    | _ => none
+  | ["ulp32", x] => do
+    let x ← parseFinite x
+    pure (showRat (ulp32 x))
+  | _ => none
 
 end Tak.Driver.Solver
